@@ -57,6 +57,7 @@ var preludeDefs = map[string]string{
 	"psum":       "(declare-fun psum (Int Int Int) Int)",
 	"perm_idx":   "(declare-fun perm_idx (Int Int Int Int Int) Int)",
 	"map_len":    "(declare-fun map_len (Int Int) Int)",
+	"nlmul":      "(declare-fun nlmul (Int Int) Int)",
 }
 
 // defs that depend on others
@@ -116,6 +117,18 @@ func (e *Engine) BuildSMTVariant(o *Obligation, models bool, variant int) string
 	}
 	ts := e.ts
 	assumes := o.Assumes
+	if variant == 2 {
+		memo := map[int]bool{}
+		any := hasNonlinear(o.Goal, memo)
+		for _, a := range assumes {
+			if hasNonlinear(a, memo) {
+				any = true
+			}
+		}
+		if !any {
+			return ""
+		}
+	}
 	if variant == 1 {
 		memo := map[int]bool{}
 		if hasNonlinear(o.Goal, memo) {
@@ -169,6 +182,9 @@ func (e *Engine) BuildSMTVariant(o *Obligation, models bool, variant int) string
 	}
 	roots = append(roots, extra...)
 	pr := NewPrinter(ts)
+	if variant == 2 {
+		pr.AbstractNL = true
+	}
 	pr.Prepare(roots...)
 	var body []string
 	for _, a := range assumes {
@@ -365,19 +381,22 @@ func (e *Engine) SolveAll(obls []*Obligation, secs int, par int, thorough bool, 
 	defer os.RemoveAll(dir)
 	// render scripts sequentially (the term store is not concurrency-safe)
 	files := make([]string, len(obls))
-	alt := make([]string, len(obls))
+	alt := make([][]string, len(obls))
 	for i, o := range obls {
 		txt := e.BuildSMT(o, false)
 		o.SMTSize = len(txt)
 		files[i] = filepath.Join(dir, fmt.Sprintf("o%d.smt2", i))
 		os.WriteFile(files[i], []byte(txt), 0o644)
 		if o.Kind != "frame" && o.Lemma == nil {
-			if t1 := e.BuildSMTVariant(o, false, 1); t1 != "" {
-				alt[i] = filepath.Join(dir, fmt.Sprintf("o%d.v1.smt2", i))
-				os.WriteFile(alt[i], []byte(t1), 0o644)
-				if keepDir != "" {
-					os.MkdirAll(keepDir, 0o755)
-					os.WriteFile(filepath.Join(keepDir, safeFile(o.Name)+".v1.smt2"), []byte(t1), 0o644)
+			for v := 1; v <= 2; v++ {
+				if t1 := e.BuildSMTVariant(o, false, v); t1 != "" {
+					af := filepath.Join(dir, fmt.Sprintf("o%d.v%d.smt2", i, v))
+					alt[i] = append(alt[i], af)
+					os.WriteFile(af, []byte(t1), 0o644)
+					if keepDir != "" {
+						os.MkdirAll(keepDir, 0o755)
+						os.WriteFile(filepath.Join(keepDir, safeFile(o.Name)+fmt.Sprintf(".v%d.smt2", v)), []byte(t1), 0o644)
+					}
 				}
 			}
 		}
@@ -409,13 +428,37 @@ func safeFile(s string) string {
 	return s
 }
 
-func solveOne(o *Obligation, file string, altFile string, secs int, thorough bool) {
+func solveOne(o *Obligation, file string, altFiles []string, secs int, thorough bool) {
 	if o.Kind == "frame" {
 		// decided by the syntactic frame pass
 		if o.Goal.IsTrue() {
 			o.Status = "proved"
 		} else {
 			o.Status = "failed"
+		}
+		return
+	}
+	if o.Canary {
+		// vacuity guard: only an `unsat` answer matters (the path would be contradictory); keep it cheap
+		ctx, cancel := context.WithCancel(context.Background())
+		ch := make(chan solveResult, 2)
+		go func() { ch <- runSolverCtx(ctx, solvers[0], file, 3) }()
+		go func() { ch <- runSolverCtx(ctx, solvers[2], file, 3) }()
+		r := <-ch
+		if r.verdict != "unsat" && r.verdict != "sat" {
+			if r2 := <-ch; r2.verdict == "unsat" || r2.verdict == "sat" {
+				r = r2
+			}
+		}
+		cancel()
+		o.Solver, o.Secs, o.Output = r.solver, r.secs, firstLines(r.output, 3)
+		switch r.verdict {
+		case "unsat":
+			o.Status = "proved"
+		case "sat":
+			o.Status = "failed"
+		default:
+			o.Status = "undecided"
 		}
 		return
 	}
@@ -443,24 +486,25 @@ func solveOne(o *Obligation, file string, altFile string, secs int, thorough boo
 	total := r.secs
 	if r.verdict == "unknown" || r.verdict == "error" {
 		all := append(append([]solverSpec{}, solvers...), seedSolvers...)
-		njobs := len(all)
-		if altFile != "" {
-			njobs *= 2
-		}
+		njobs := len(all) * (1 + len(altFiles))
 		ctx, cancelAll := context.WithCancel(context.Background())
 		t1 := time.Now()
 		ch := make(chan solveResult, njobs)
 		for _, sp := range all {
 			go func(sp solverSpec) { ch <- runSolverCtx(ctx, sp, file, secs) }(sp)
-			if altFile != "" {
-				go func(sp solverSpec) {
-					rr := runSolverCtx(ctx, sp, altFile, secs)
-					rr.solver += "(linear-assumptions)"
+			for _, af := range altFiles {
+				go func(sp solverSpec, af string) {
+					rr := runSolverCtx(ctx, sp, af, secs)
+					if strings.HasSuffix(af, ".v1.smt2") {
+						rr.solver += "(linear-assumptions)"
+					} else {
+						rr.solver += "(products-abstracted)"
+					}
 					if rr.verdict == "sat" {
-						rr.verdict = "unknown" // a model of fewer assumptions proves nothing
+						rr.verdict = "unknown" // a model of a weakened problem proves nothing
 					}
 					ch <- rr
-				}(sp)
+				}(sp, af)
 			}
 		}
 		var best solveResult
